@@ -402,7 +402,7 @@ def cmp(exp, got):
 # ------------------------------------------------------------------------------------------------
 # monitor: a direct statement of the property, independent of the model
 # ------------------------------------------------------------------------------------------------
-_STRICT = re.compile(r'^(%s)(/([0-9]{1,2}):([0-9]{1,2}):([0-9]{1,2}))?$' % '|'.join(DAYS))
+_STRICT = re.compile(r'^(%s)(/([0-9]{1,2}):([0-9]{1,2}):([0-9]{1,2}))?\Z' % '|'.join(DAYS))
 
 
 def strict_schedule(s):
@@ -789,7 +789,6 @@ def run_impl(case, pid):
                     if have != want:
                         run.hits.append(fw.Hit(clause='allocations-differ-from-ldap', call_site='cellsync.sync_allocations',
                                                detail='zookeeper %r, LDAP %r' % (have, want)))
-                    after = node.data if node is not None else None
                     if not w:
                         run.tags.add('alloc-uptodate')
                     elif before is None:
@@ -798,7 +797,6 @@ def run_impl(case, pid):
                         run.tags.add('alloc-overwritten')
                     if len(mine) < len(allocs):
                         run.tags.add('alloc-other-cell')
-                    del after
             elif kind == 'topo':
                 import kazoo.exceptions
                 admin.topo = op[2]
